@@ -272,7 +272,7 @@ func VerifC17McrewTime() {
 	default:
 		doAdd("t2", d2)
 	}
-	time.Sleep(2 * time.Second) // everything that was going to fire has fired
+	time.Sleep(1100 * time.Millisecond) // everything that was going to fire has fired (delays are at most 500 ms each)
 	lg.Lock()
 	evs := append([]c17ev(nil), lg.evs...)
 	lg.Unlock()
